@@ -73,7 +73,8 @@ Inductive step_view (s s' : stt) : Prop :=
     funcm (sK s) (sn 0) (nth 0 (sIr s) None) (nth 1 (sIc s) None) = (c', Some Z) -> k_stop c' = None ->
     s3 = post_stop c' (S (s_nswp s)) (s_e s') (s_evld s') ->
     sK s' = set_stop c' s3 -> s_nswp s' = S (s_nswp s) ->
-    s_pc s' = match s3 with Some _ => Done | None => Run true true 0 end -> step_view s s'.
+    s_pc s' = match s3 with Some _ => Done | None => Run true true 0 end ->
+    (exists ne Y Yo, s_e s' = accuracy ne Y Yo) -> step_view s s'.
 
 Notation advl := (adv_ltr pones pdotR pick pcoreG pfacR C).
 Notation advr := (adv_rtl K isinf cb pones pdotL pick pcoreG pfacR erank accuracy accdata C).
@@ -111,8 +112,10 @@ Proof.
               match goal with |- step_view s (match ?x with Some _ => _ | None => _ end) =>
                 destruct x as [r|] eqn:E3 end.
               ** eapply SV_post with (s3 := Some r); eauto; cbn; try reflexivity;
+                   try (do 3 eexists; reflexivity);
                    unfold post_stop, conv; rewrite Est; symmetry; exact E3.
               ** eapply SV_post with (s3 := None); eauto; cbn; try reflexivity;
+                   try (do 3 eexists; reflexivity);
                    unfold post_stop, conv; rewrite Est; symmetry; exact E3.
            ++ destruct (adv_rtl_view true s i' c' Z (c_drmin C) (c_drmax C)) as (A1 & A2 & A3 & A4 & A5 & A6 & A7).
               eapply SV_adv; eauto.
